@@ -25,7 +25,7 @@ ASSUMPTIONS = [
     "family membership is asserted there",
     "ValueError for unknown ids / undecodable values is documented behaviour and not a network failure",
 ]
-MUST = ["cfc_checked_through_api", "damaged_frames_not_a_refusal", "os_error_on_send", "os_error_on_receive", "idle_error_keepalive", "tcp_connect_failure", "cfc_checked",
+MUST = ["failure_count_vs_wire_log", "cfc_checked_through_api", "damaged_frames_not_a_refusal", "os_error_on_send", "os_error_on_receive", "idle_error_keepalive", "tcp_connect_failure", "cfc_checked",
         "cfc_after_rejection", "cfc_checked_overlapping_calls", "entry_points_under_fault", "settings_read_with_refused_registers", "api_calls_under_fault", "ident_payloads", "discover_payloads", "failed_exception_seen",
         "rejected_exception_seen"]
 EXHAUSTIVE = {"quick": False, "thorough": False}
@@ -355,6 +355,61 @@ def run_c(case, part):
     return vs
 
 
+def probe_failures_part(part):
+    """ET.read_device_info() succeeds although its optional feature probes (eco-mode v2 at 47547, peak shaving at 47589) get no answer; then the
+    inverter stops answering altogether and a public call fails: its consecutive_failures_count is the number of REQUESTS that failed since
+    the last request that was answered - counted independently from the wire log (groups of identical transmissions without an answer)"""
+    from .. import models
+    g = env.goodwe()
+    for port in (8899, 502):
+        for R in (0, 1):
+            for silent_regs in ({47547, 47589}, {47589}, {47547}, set()):
+                for ka in (False, True):
+                    sim = models.et_sim()
+                    sim.silent_regs = set(silent_regs)
+                    res = {}
+
+                    async def flow(loop):
+                        inv = g.ET("inv0", port, 0, 1, R)
+                        inv.set_keep_alive(ka)
+                        await inv.read_device_info()
+                        sim.silent = True
+                        for k in range(2):
+                            try:
+                                await inv.read_setting("modbus-47000")
+                            except g.exceptions.RequestFailedException as e:
+                                res.setdefault("cfc", []).append(e.consecutive_failures_count)
+                    run = engine.run_custom({("inv0", port): sim}, flow, vtime_cap=600, tx_cap=600)
+                    part.evaluations += 1
+                    case = {"part": "P"}
+                    if run.stop or run.error is not None:
+                        part.violate("C09/api/ET/setup", f"probe failures: {run.stop or repr(run.error)[:100]}", case)
+                        continue
+                    # independent count from the wire
+                    un = getattr(sim, "unanswered", set())
+                    groups = []         # [key, answered, transmissions]: a request = up to R + 1 identical transmissions, the last one answered or none
+                    for i, (t, n, req, raw) in enumerate(sim.log):
+                        key = (req["kind"], req["reg"], req.get("count"))
+                        if groups and groups[-1][0] == key and not groups[-1][1] and groups[-1][2] < R + 1:
+                            groups[-1][1] = i not in un
+                            groups[-1][2] += 1
+                        else:
+                            groups.append([key, i not in un, 1])
+                    failed = 0
+                    want = []
+                    for key, ok_, _ntx in groups:
+                        failed = 0 if ok_ else failed + 1
+                        if key == ("read", 47000, 1) and not ok_:
+                            want.append(failed)
+                    part.count("failure_count_vs_wire_log")
+                    part.see(f"probe|{port}|{R}|{sorted(silent_regs)}|{ka}")
+                    if res.get("cfc") != want:
+                        part.violate("C09/api/ET/consecutive-failures-count",
+                                     f"ET port {port} retries {R} keep_alive={ka}: probes at {sorted(silent_regs)} unanswered during read_device_info(), then two failing "
+                                     f"read_setting calls report consecutive_failures_count {res.get('cfc')}; the wire log shows {want} failed requests in a row "
+                                     f"(request groups {[(k[1], o) for k, o, _ in groups][-6:]})", case)
+
+
 # ---- part D: identification payloads ---------------------------------------------------------------------
 def payload(rnd, n, style):
     if style == "random":
@@ -466,6 +521,7 @@ def run_shard(spec):
         for script in itertools.product(alpha_for(T), repeat=R + 1):
             run_a(scenario_a(spec["transport"], spec["ka"], T, R, list(script), spec["entry"]), part)
     elif p == "Aconnect":
+        probe_failures_part(part)
         for R in (0, 1, 2):
             for d in range(1, spec["depth"] + 1):
                 for cs in itertools.product(["ok", "refused", "unreach", "hostunreach", "timeout", "hang"], repeat=d):
@@ -589,6 +645,9 @@ def replay(case):
         vs = run_b(case["scenario"], part)
     elif p == "Bo":
         vs = run_b_overlap(case["scenario"], part)
+    elif p == "P":
+        probe_failures_part(part)
+        return [{"key": v["key"], "msg": v["msg"]} for v in part.violations]
     elif p == "D1":
         entry_points_under_fault(part)
         return [{"key": v["key"], "msg": v["msg"]} for v in part.violations]
